@@ -609,6 +609,32 @@ def order_line(case, nn, pas, ai):
     raise SystemExit('no family for ' + cls)
 
 
+_SFC_EPS = []
+
+
+def _sfc_level_has_eps():
+    """which body of StratifiedSFCNNPS._get_level the tree under test has (the
+    key computation below is a transcription of it)"""
+    if not _SFC_EPS:
+        import os
+        import re
+        src = open(os.path.join(os.environ['PYSPH_VERIF_SCRATCH_REPO'], 'pysph', 'base',
+                                'stratified_sfc_nnps.pyx')).read()
+        body = src[src.index('int _get_level('):]
+        body = body[:body.index('cdef inline int _get_H')]
+        code = '\n'.join(l.split('#')[0] for l in body.split('\n'))
+        if 'cell_size + EPS' in code:
+            _SFC_EPS.append(True)
+        elif re.search(r'fmax\(1\.0,\s*ceil\(log2\(self\.cell_size\s*/\s*self\.radius_scale\s*/\s*h\)\)\)', code):
+            _SFC_EPS.append(False)
+        else:
+            # an unknown body: keep the transcription of the repaired code; if the
+            # new body means something else the key comparison disagrees and the
+            # check reports it
+            _SFC_EPS.append(False)
+    return _SFC_EPS[0]
+
+
 def strat_keys(case, nn, pa, xmin):
     EPS = 1e-13
     nl = int(case['opts'].get('num_levels', 1))
@@ -625,8 +651,13 @@ def strat_keys(case, nn, pa, xmin):
     h = pa.get_carray('h').get_npy_array()
     keys = []
     for i in range(len(x)):
-        level = nl - int(min(nl, math.ceil(math.log2(
-            (nn.cell_size + EPS) / rs / h[i]))))
+        if _sfc_level_has_eps():
+            # _get_level before fix ac8e697 (absolute EPS added to cell_size)
+            level = nl - int(min(nl, math.ceil(math.log2(
+                (nn.cell_size + EPS) / rs / h[i]))))
+        else:
+            level = nl - int(min(nl, max(1.0, math.ceil(math.log2(
+                nn.cell_size / rs / h[i])))))
         cs = rs * cur[level]
         c = (_fl(x[i] - xmin[0], cs), _fl(y[i] - xmin[1], cs),
              _fl(z[i] - xmin[2], cs))
